@@ -2,7 +2,7 @@
 # Build libpikasim.so, instrumented libpika (from /repo's working tree) and the harness runner.
 # Usage: build.sh [quiet]
 set -u
-V=/verif
+V=${VERIF_ROOT:-$(cd "$(dirname "$0")/.." && pwd)}
 B=${VERIF_BUILD:-$V/build}
 REPO=${VERIF_REPO:-/repo}
 mkdir -p "$B" "$B/tmp" "$B/obj"
